@@ -42,7 +42,18 @@ problem_t make_problem(Rng& rng, bool allow_classification, bool with_missing)
         }
     }
     std::vector<column_t> columns{x1, x2, c1, y};
-    p.source = std::make_unique<table_datasource_t>(n, columns, 3U);
+    size_t                target = 3U;
+    if (rng.coin())
+    {
+        // duplicated columns (real data have them): exactly equal scores, so the fitted model shows how ties between features are broken
+        auto d1         = x1;
+        auto d2         = x2;
+        d1.feature      = make_scalar_column("x1dup", feature_type::float64, n).feature;
+        d2.feature      = make_scalar_column("x2dup", feature_type::float64, n).feature;
+        columns         = {x1, x2, c1, d1, d2, y};
+        target          = 5U;
+    }
+    p.source = std::make_unique<table_datasource_t>(n, columns, target);
     p.source->load();
     p.dataset = std::make_unique<dataset_t>(*p.source, static_cast<size_t>(rng.range(1, 4)));
     p.dataset->add<sclass_identity_generator_t>();
